@@ -486,7 +486,8 @@ func (l *leader) setCommitIndex(index uint64) {
 		println(l, "log.Commit", index)
 	}
 	l.storage.commitLog(index)
-	if l.commitIndex < l.startIndex && index >= l.startIndex {
+	commitReady := l.commitIndex < l.startIndex && index >= l.startIndex
+	if commitReady {
 		l.logger.Info("ready for commit")
 		if tracer.commitReady != nil {
 			tracer.commitReady(l.Raft)
@@ -506,6 +507,10 @@ func (l *leader) setCommitIndex(index uint64) {
 		} else {
 			l.checkConfigActions(nil, l.configs.Latest)
 		}
+	} else if commitReady {
+		// start the actions that were postponed until
+		// an entry of this term is committed
+		l.checkConfigActions(nil, l.configs.Latest)
 	}
 }
 
